@@ -349,6 +349,16 @@ pub fn generate(kind: &str, tier: &str, seed: u64, shard: u64, nshards: u64, pat
                     let _ = lib_decode(&junk);
                     let _ = catch_unwind(AssertUnwindSafe(|| serialize(&vec![Amf0Value::Number(1.0), Amf0Value::Utf8String("q".repeat(65536 + i))])));
                 }
+                // text longer than the usual buffer sizes made of two- and three-byte characters at every alignment (a character
+                // may straddle any 1 024 / 4 096 / 8 192-byte boundary)
+                for pad in 0..3usize {
+                    for (ch, n) in [("\u{e9}", 600usize), ("\u{e9}", 2100), ("\u{e9}", 4200), ("\u{20ac}", 1400), ("\u{20ac}", 2800), ("\u{1F600}", 2100)].iter() {
+                        let st = format!("{}{}", "x".repeat(pad), ch.repeat(*n));
+                        let mut p = HashMap::new();
+                        p.insert(st.clone(), Amf0Value::Utf8String(st.clone()));
+                        t.emit(&enc_event(&vec![Amf0Value::Utf8String(st), Amf0Value::Object(p)]));
+                    }
+                }
                 // property names and strings of every length class 2^k - 1, 2^k, 2^k + 1
                 for k in 1..=10u32 {
                     for d in [-1i64, 0, 1].iter() {
